@@ -490,10 +490,19 @@ def solve_sat(
                     return Result(sol, len(sol), decisions, propagations)
                 return Result(sol, len(sol), decisions, propagations, solutions=tuple(all_solutions))
 
-            blocking = [(-v if vals[v] == 1 else v) for v in range(1, n_vars + 1) if vals[v] != UNDEF]
+            # Level-0 assignments are fixed for the rest of the search, so the blocking
+            # clause only needs the variables assigned above level 0 (watching a literal
+            # that is permanently false would never fire).
+            blocking = [
+                (-v if vals[v] == 1 else v) for v in range(1, n_vars + 1) if vals[v] != UNDEF and levels[v] > 0
+            ]
+            if not blocking:
+                return Result(
+                    all_solutions[0], len(all_solutions[0]), decisions, propagations, solutions=tuple(all_solutions)
+                )
             clause_idx = len(clauses) + len(learned)
             learned.append(blocking)
-            lbd_scores.append(n_vars)
+            lbd_scores.append(0)  # blocking clauses are not implied by the formula: reduce_db must keep them
 
             if len(blocking) >= 2:
                 add_watch(blocking[0], clause_idx)
